@@ -119,6 +119,37 @@ func runOrd2(m *Model, r *RuleResult) {
 			}
 		})
 	}
+	// explicit form (benign AB4): no pipeline slice, the five phases are called one after the other on the option fields
+	explicit := false
+	if len(procs) == 0 {
+		var holder *ssa.Function
+		same := true
+		for _, f := range m.Src {
+			if pkgPathOf(f) != pkgPathOf(layout) || m.FuncIsPosctl(f) {
+				continue
+			}
+			eachInstr(f, func(in ssa.Instruction) {
+				ci, ok := in.(ssa.CallInstruction)
+				if !ok || ci.Common().IsInvoke() {
+					return
+				}
+				c := ci.Common().StaticCallee()
+				if c == nil || c.Name() != "Process" || c.Signature.Recv() == nil || !strings.HasPrefix(shortPkg(pkgPathOf(c)), "internal/phase") {
+					return
+				}
+				procs = append(procs, ci)
+				if holder != nil && holder != f {
+					same = false
+				}
+				holder = f
+			})
+		}
+		if len(procs) == 5 && same {
+			explicit = true
+			pf = holder
+			sort.SliceStable(procs, func(i, j int) bool { return instrDominates(procs[i], procs[j]) })
+		}
+	}
 	var isl, unrev, comps []ssa.CallInstruction
 	preF, unF := m.anchorSelfLoopPre(), m.anchorUnreverse()
 	isl = staticCalls(pf, func(c *ssa.Function) bool { return c == preF })
@@ -134,13 +165,23 @@ func runOrd2(m *Model, r *RuleResult) {
 			pfSite = sites[0]
 		}
 	}
-	if len(isl) != 1 || len(unrev) != 1 || len(comps) != 1 || len(procs) != 1 || (pf != layout && pfSite == nil) {
+	if len(isl) != 1 || len(unrev) != 1 || len(comps) != 1 || (!explicit && len(procs) != 1) || (pf != layout && pfSite == nil) {
 		r.undecided("anchors", m.Pos(layout.Pos()), "Layout (or one helper of its package, called once from Layout) must contain exactly one call each of the self-loop pre-processor (returns a func(*DGraph)), the un-reverser (modifies Edge.IsReversed) and one Process invoke; Layout calls connected.Components once",
 			fmt.Sprintf("found %d/%d/%d/%d", len(isl), len(unrev), len(comps), len(procs)))
 		return
 	}
 	islC, unrevC, compC, procC := isl[0], unrev[0], comps[0], procs[0]
+	lastC := procs[len(procs)-1]
 	g := procC.Common().Args[0]
+	if explicit {
+		g = procC.Common().Args[1] // Args[0] is the receiver of the statically resolved method
+		for _, pc := range procs {
+			if len(pc.Common().Args) < 2 || pc.Common().Args[1] != g {
+				r.violation("same-graph", m.Pos(pc.Pos()), "every phase acts on the same component", "the phases are not all handed the same graph value")
+				return
+			}
+		}
+	}
 	pos := m.Pos(procC.Pos())
 	chk := func(key, desc string, ok bool, detail string) {
 		if ok {
@@ -182,13 +223,20 @@ func runOrd2(m *Model, r *RuleResult) {
 	chk("selfloops-before-pipeline", "IgnoreSelfLoops(g) dominates the Process invoke", instrDominates(islC, procC), "self-loops would be visible to the phases (cycle breaking and layering assume none)")
 	loops := naturalLoops(pf)
 	pl := loopsContaining(loops, procC.Block())
-	if len(pl) == 0 {
+	if len(pl) == 0 && !explicit {
 		r.violation("pipeline-loop", pos, "Process is invoked in a loop over the pipeline", "no loop found around the Process invoke")
 		return
 	}
-	ploop := pl[0]
-	afterLoop := func(in ssa.Instruction) bool {
-		return in != nil && !ploop.Body[in.Block()] && blockReaches(ploop.Head, in.Block()) && ploop.Head.Dominates(in.Block())
+	var afterLoop func(in ssa.Instruction) bool
+	if explicit {
+		// the five calls stand in for the loop: "after the pipeline" is "dominated by the last call, at its nesting depth"
+		pl = append([]*loopInfo{nil}, pl...)
+		afterLoop = func(in ssa.Instruction) bool { return in != nil && instrDominates(lastC, in) }
+	} else {
+		ploop := pl[0]
+		afterLoop = func(in ssa.Instruction) bool {
+			return in != nil && !ploop.Body[in.Block()] && blockReaches(ploop.Head, in.Block()) && ploop.Head.Dominates(in.Block())
+		}
 	}
 	chk("restore-after-pipeline", "the self-loop restore closure runs once, after the pipeline loop", restore != nil && afterLoop(restore) && len(loopsContaining(loops, restore.Block())) == len(pl)-1,
 		"self-loops restored inside or before the pipeline would be seen by the phases, or never restored")
@@ -270,6 +318,39 @@ func runOrd2(m *Model, r *RuleResult) {
 	chk("postprocessing-before-collection", "restore and UnreverseEdges dominate the construction of every output node and edge", okDom,
 		"the output would be collected with self-loops missing or edges still reversed")
 	// pipeline order and Phase() constants
+	if explicit {
+		okOrder := true
+		var got []string
+		for i, pc := range procs {
+			phase := int64(-1)
+			recv := pc.Common().Args[0]
+			if ms := m.Prog.MethodSets.MethodSet(recv.Type()); ms != nil {
+				if sel := ms.Lookup(nil, "Phase"); sel != nil {
+					if fn := m.Prog.MethodValue(sel); fn != nil {
+						eachInstr(fn, func(in ssa.Instruction) {
+							if ret, ok := in.(*ssa.Return); ok && len(ret.Results) == 1 {
+								if c, ok := constInt(ret.Results[0]); ok {
+									phase = c
+								}
+							}
+						})
+					}
+				}
+			}
+			field := ""
+			for _, o := range originsOf(actual(recv), 0) {
+				if o.Kind == "fieldload" {
+					field = o.Loc
+				}
+			}
+			got = append(got, fmt.Sprintf("[%d]=%s/Phase()=%d", i, strings.TrimPrefix(field, "autog.options."), phase))
+			if phase != int64(i+1) || field != fmt.Sprintf("autog.options.p%d", i+1) || (i > 0 && !instrDominates(procs[i-1], pc)) {
+				okOrder = false
+			}
+		}
+		chk("pipeline-order", "the i-th phase call is made on options.p(i) and its static Phase() is i", okOrder, "pipeline is "+strings.Join(got, " "))
+		return
+	}
 	var arr *ssa.Alloc
 	if u, ok := procC.Common().Value.(*ssa.UnOp); ok {
 		if ia, ok := u.X.(*ssa.IndexAddr); ok {
